@@ -557,6 +557,7 @@ def main(chk):
         'message equals the original except for statement name and length field (wire formats transcribed from the protocol docs); '
         'Parse::get_hash is checked for injectivity of its hasher input (two symbolic statements with equal hasher input must be the '
         'same statement). Counterexamples are replayed through the compiled codecs.')
+    chk.explanation += (' At check-in the connection\'s cache is emptied exactly when DEALLOCATE ALL is sent (checkin_cleanup from MIR); a connection is started with the configured cache capacity (connect hook from MIR).')
     chk.assumptions += [
         'names are ASCII without NUL; query text is ASCII, or (one obligation) ASCII plus bytes that can never occur in UTF-8 (0xC0, 0xC1, 0xF5..0xFF); valid multi-byte sequences are not exercised',
         'SipHash collisions on distinct inputs are outside the claim; only collisions of the hasher INPUT are searched',
@@ -593,6 +594,17 @@ def main(chk):
 
     # whole sessions with statement caching on (Client::handle executed): every Execute runs the text the client prepared under that name,
     # a valid program never sees 'prepared statement does not exist'
+    # the connection's statement cache is emptied exactly when the server is told to drop its statements (checkin_cleanup from MIR; the C02 obligation
+    # instantiated for this property)
+    import checks.c02 as c02mod
+    for nrep in (4, 2):
+        c02mod.o1_checkin(chk, chk.program('on'), nrep, True, prop='C08', only=('statement-cache',))
+    # the capacity of a connection's statement cache is the configured one (bb8's connect hook from MIR; the C18 obligation instantiated here)
+    import checks.c18 as c18mod
+    try:
+        c18mod.o4_connect(chk, chk.program('on'), props=('C08',))
+    except Inconclusive as e:
+        chk.note_inconclusive('O4-connect: %s' % e)
     hobl.handle_obligations(chk, chk.program('on'), {'C08'}, ['cache', 'named', 'two-clients'])
 
 if __name__ == '__main__':
